@@ -578,6 +578,7 @@ func off[S any, F any](s *S, f *F) uintptr { return uintptr(unsafe.Pointer(f)) -
                           'type QHuge struct {\n\tHead int32\n\tBuf [1 << 16]byte\n\tSize int64\n\tQInner\n\tMid [3000]uint64\n\tTail string\n}\n'
                           'type RW struct {\n\tX int32\n\tY string\n}\ntype RV struct {\n\tP *int\n\tRW\n\tQ *RW\n\tK uint8\n}\n'
                           'type RTop struct {\n\tA [3]uint64\n\tRV\n\tZ int8\n}\n'
+                          'type QPix struct {\n\tN int64\n\tRGB [3]byte\n\tT uint8\n\tPad int32\n\tW [3]int16\n\tU uint16\n\tX [5]byte\n\tV [3]uint8\n\tY [7]uint8\n\tS uint8\n\tTri struct{ A, B, C uint8 }\n\tE uint8\n}\n'
                           'type eCore struct{ U uint16 }\ntype EAlias = eCore\ntype EBox[T any] struct{ V T }\n'
                           'type EOuter struct {\n\tHead int8\n\tEAlias\n\tEBox[int]\n\tbyte\n\tTail string\n}\n'
                           'const decl_shapes2 = "QHuge{Head int32; Buf [65536]byte; Size int64; QInner{Qa int16; Qb string}; Mid [3000]uint64; Tail string} RTop{A [3]uint64; RV{P *int; RW{X int32; Y string}; Q *RW; K uint8}; Z int8} EOuter{Head int8; EAlias(=eCore{U uint16}); EBox[int]{V int}; byte; Tail string}"')
@@ -588,7 +589,11 @@ func off[S any, F any](s *S, f *F) uintptr { return uintptr(unsafe.Pointer(f)) -
                     '\t\tFill: %s, Vals: %s}') % (S, q(prop), S, get, S, S, put, S, sel, S, sel, T, S, sel, sel, fill, vals)
         fillQ = 'func(s *QHuge, k int) { s.Head = int32(k); for i := range s.Buf { s.Buf[i] = byte(i*7 + k) }; s.Size = int64(k) * 1000003; s.Qa = int16(k + 5); s.Qb = fmt.Sprint("qb", k); for i := range s.Mid { s.Mid[i] = uint64(i ^ k) }; s.Tail = fmt.Sprint("tail", k) }'
         fillR = 'func(s *RTop, k int) { s.A = [3]uint64{uint64(k), uint64(k) + 1, uint64(k) + 2}; s.P = new(int); s.X = int32(100 + k); s.Y = fmt.Sprint("y", k); s.Q = &RW{X: 7}; s.K = uint8(k); s.Z = int8(k) }'
-        foci = [('QHuge', 'int64', 'Size', fillQ, 'box([]int64{0, -1, 1 << 40})'), ('QHuge', 'int16', 'Qa', fillQ, 'box([]int16{0, -3, 999})'), ('QHuge', 'string', 'Qb', fillQ, 'box([]string{"", "zz"})'),
+        fillP = 'func(s *QPix, k int) { b := byte(k*37 + 11); s.N = int64(k) - 3; s.RGB = [3]byte{b, b + 1, b + 2}; s.T = b + 3; s.Pad = int32(k) * 65537; s.W = [3]int16{int16(k) - 9, int16(k) * 257, 77}; s.U = uint16(k) + 40000; s.X = [5]byte{b, b, b + 9, b, b}; s.V = [3]uint8{b + 5, b + 6, b + 7}; s.Y = [7]uint8{1, b, 3, b, 5, b, 7}; s.S = b + 8; s.Tri.A, s.Tri.B, s.Tri.C = b, b + 1, b + 2; s.E = b + 4 }'
+        foci = [('QPix', '[3]byte', 'RGB', fillP, 'box([][3]byte{{}, {1, 2, 3}, {255, 254, 253}})'), ('QPix', '[3]int16', 'W', fillP, 'box([][3]int16{{}, {-1, -2, -3}, {32767, 1, -32768}})'),
+                ('QPix', '[5]byte', 'X', fillP, 'box([][5]byte{{}, {9, 8, 7, 6, 5}})'), ('QPix', '[7]uint8', 'Y', fillP, 'box([][7]uint8{{}, {7, 6, 5, 4, 3, 2, 1}})'),
+                ('QPix', 'struct{ A, B, C uint8 }', 'Tri', fillP, 'box([]struct{ A, B, C uint8 }{{}, {1, 2, 3}, {250, 251, 252}})'), ('QPix', 'uint16', 'U', fillP, 'box([]uint16{0, 65535})'),
+                ('QHuge', 'int64', 'Size', fillQ, 'box([]int64{0, -1, 1 << 40})'), ('QHuge', 'int16', 'Qa', fillQ, 'box([]int16{0, -3, 999})'), ('QHuge', 'string', 'Qb', fillQ, 'box([]string{"", "zz"})'),
                 ('QHuge', 'string', 'Tail', fillQ, 'box([]string{"", "t"})'), ('QHuge', 'int32', 'Head', fillQ, 'box([]int32{0, 77})'),
                 ('RTop', 'int32', 'X', fillR, 'box([]int32{0, -9, 1 << 20})'), ('RTop', 'string', 'Y', fillR, 'box([]string{"", "w"})'), ('RTop', 'uint8', 'K', fillR, 'box([]uint8{0, 200})'), ('RTop', 'int8', 'Z', fillR, 'box([]int8{0, -7})')]
         for prop in ('C01', 'C02'):
@@ -597,7 +602,7 @@ func off[S any, F any](s *S, f *F) uintptr { return uintptr(unsafe.Pointer(f)) -
             fn = 'case_static_shapes2_%s' % prop
             self.fns.append(fn)
             self.w('func %s() {' % fn)
-            self.w('\tc := rt.Case{ID: "%s-static-shapes2", Site: "far-and-nested-foci", Struct: "QHuge, RTop", Req: "lenses and reflectors by name (and by type where the type is the first of its kind) on foci 64 KiB into the container and on a struct embedded after a pointer field", Expect: "focus exactly the field", Decl: decl_shapes2}' % prop)
+            self.w('\tc := rt.Case{ID: "%s-static-shapes2", Site: "far-and-nested-foci", Struct: "QHuge, RTop, QPix", Req: "lenses and reflectors by name (and by type where the type is the first of its kind) on foci 64 KiB into the container and on a struct embedded after a pointer field", Expect: "focus exactly the field", Decl: decl_shapes2}' % prop)
             self.w('\tif !rt.Want(%s, c.ID) || !rt.Begin(c) {\n\t\treturn\n\t}' % q(prop))
             for i, (S, T, sel, fill, vals) in enumerate(foci):
                 self.w('\t{')
@@ -624,6 +629,12 @@ func off[S any, F any](s *S, f *F) uintptr { return uintptr(unsafe.Pointer(f)) -
         for k in ['eCore', 'EBox[int]', 'uint8', 'main.eCore']:
             self.w('\trt.CheckLookup("C03", c, %s, -1, func() int { return hseq.ForName(seq, %s).ID })' % (q('ForName(%s)' % k), q(k)))
             self.w('\trt.CheckMaybe("C03", c, %s, -1, func() (int, bool) { t, ok := hseq.ForNameMaybe(seq, %s); return t.ID, ok })' % (q('ForNameMaybe(%s)' % k), q(k)))
+        # the same struct type embedded by pointer along two paths: both are unfolded
+        self.w('\tdk := hseq.FMap(hseq.New[HDoc](), func(t hseq.Type[HDoc]) string { return t.FieldKey() })')
+        self.w('\tif w := []string{"ID", "HAudit", "HMeta", "Rev", "Who", "At", "HOwner", "HMeta", "Rev", "Who", "Name", "Tail"}; fmt.Sprint(dk) != fmt.Sprint(w) {\n\t\trt.Vio("C03", c, "listing-names", fmt.Sprintf("HDoc (the struct HMeta embedded by pointer along two paths) unfolds to %v, its fields are %v", dk, w))\n\t}')
+        self.w('\trk := hseq.FMap(hseq.New[HRec](), func(t hseq.Type[HRec]) string { return t.FieldKey() })')
+        self.w('\tif w := []string{"HBase", "HMeta", "Rev", "Who", "K", "HMeta", "Z"}; fmt.Sprint(rk) != fmt.Sprint(w) {\n\t\trt.Vio("C03", c, "listing-names", fmt.Sprintf("HRec unfolds to %v, its fields are %v", rk, w))\n\t}')
+        self.w('\trt.CheckLookup("C03", c, "ForType[string] of HDoc", 4, func() int { return hseq.ForType[string](hseq.New[HDoc]()).ID })')
         self.w('\trt.CheckIDsF("C03", c, "New(Tail, EBox, EAlias)", func() []int { return hseq.FMap(hseq.New[EOuter]("Tail", "EBox", "EAlias"), func(t hseq.Type[EOuter]) int { return t.ID }) }, []int{6, 3, 1})')
         self.w('\trt.End(c, "C03/static/embedded-names", true)\n}\n')
 
